@@ -47,18 +47,23 @@ claim("C16",
       design_ref="DESIGN.md §5 C16")
 
 claim("C07",
-      text="Proved in Lean 4 for all inputs of the model (shared semantic core Verif/Common/Sem.lean): is_connected equals "
+      text="Proved in Lean 4 (36 theorems incl. c07_pins) for all inputs of the model (shared semantic core Verif/Common/Sem.lean): is_connected equals "
            "connectivity of the predication/label/variable graph (BFS correctness, start-independent); the intrinsic-variable "
            "tests equal their definitions; is_well_formed is exactly the conjunction; the scope map partitions the predications "
            "by label and the top label is the resolved top; conjoin yields exactly the connected components of the label "
            "equalities; descendants and representatives terminate on every MRS (fuel sufficiency) and every representative is a "
            "member of its scope; for DMRS with distinct node ids the top scope is the unique scope containing the node whose id "
            "is top (code after the F07 fix). Existence of a representative is proved only under acyclicity of the in-scope "
-           "blocking relation; the unrestricted clause is false of the code (F08: decide-checked counter-example, known finding).",
+           "blocking relation; the unrestricted clause is false of the code (F08: decide-checked counter-example, known finding). "
+           "Round 5, the DMRS half: DMRS.arguments/scopal_arguments/descendants/representatives are modelled (MOD links skipped, H/HEQ as "
+           "handle-typed scopal edges, KeyError/AssertionError outcomes) and proved: dmrsSameScopeIff (two nodes share a scope iff their "
+           "ids are connected by EQ links, for cycles, parallel links and self loops), dmrsTopScopeClass (the top scope is the class of "
+           "the node whose ID is top even when other nodes compare equal), dmrsDescendantsTerminate, dmrsRepresentativesTerminate, "
+           "dmrsDescendantsTotal, dmrsRepresentativesSubset.",
       note="plausibly_scopes has no definition in the property; it is modelled line by line, compared with the code, and re-stated "
            "naively in the oracle. Assumed: variables are (sort, canonical id); EP ids distinct (proved when every ARG0 has a sort "
            "other than '_'; otherwise the driver answers 'unmodelled'); Python set order and the recursion limit are not modelled; "
-           "DMRS descendants/representatives are checked by the oracle only. Tie: 4.7k model/implementation comparisons per quick "
+           "node order inside a conjoined DMRS scope is Python set order, so the DMRS descendants/representatives functions take the scope map the real d.scopes() returned as a parameter (also compared, as a partition, with the model's own scopes); id-based oracle clauses are judged only when the real EP ids are pairwise distinct (the property's input space). Tie: 4.7k model/implementation comparisons per quick "
            "run, 141k per thorough run. Trusted: Lean kernel + 3 standard axioms, the hand-written model, harness and oracle.",
       technique="Lean 4 proof over executable model + differential correspondence with the Python implementation",
       design_ref="DESIGN.md §5 C07")
@@ -157,7 +162,7 @@ claim("C12",
       design_ref="DESIGN.md §5 C12")
 
 claim("C09",
-      text="Lean theorems (36, incl. pins of the source constants) over an executable model of tsdb.write/_get_paths/write_database (raw and typed/autocast sources, the latter through C08's cast/format) prove, for all histories and all "
+      text="Lean theorems (45, incl. pins of the source constants) over an executable model of tsdb.write/_get_paths/write_database (raw and typed/autocast sources, the latter through C08's cast/format) prove, for all histories and all "
            "start states (including both physical forms with arbitrary mtimes), that the read equals the last overwrite followed "
            "by the accepted later appends, and that exactly one file exists after any accepted write, compressed iff requested "
            "and non-empty (so stale data cannot resurface). They also prove that failed writes change nothing, that "
